@@ -121,7 +121,32 @@ def run(ctx):
     ctx.check("self.name == other.name" in norm(deq) and "get_field_tuples() == other.get_field_tuples()" in norm(deq), "R19.1", "RecordDescriptor.__eq__:name-and-fields",
               "descriptor equality does not compare name and field tuples", deq, "name and ordered field tuples")
     ri = ctx.anchor_func("flow.record.adapter.avro.AvroReader.__init__")
-    ctx.check(any(isinstance(st, ast.If) and norm(st.test) == "not self.schema" and isinstance(st.body[-1], ast.Raise) for st in walk_no_nested(ri)), "R19.1", "AvroReader.__init__:schema",
+    # the value that ends up in self.schema is refused when falsy: `if not <E>: raise` where E and self.schema expand (through single
+    # assignments of locals and of attributes of self) to the same expression, and the refusal comes before the schema is used
+    ral = dict(single_assign_aliases(ri))
+    sstores: dict = {}
+    for st in walk_no_nested(ri):
+        if isinstance(st, ast.Assign) and len(st.targets) == 1 and isinstance(st.targets[0], ast.Attribute) and norm(st.targets[0].value) == "self":
+            sstores.setdefault(norm(st.targets[0]), []).append(st.value)
+
+    def full(e, depth=0):
+        e = expand_aliases(e, ral)
+        if depth < 6:
+            import copy as _copy
+            class _A(ast.NodeTransformer):
+                def visit_Attribute(self, n):
+                    if norm(n) in sstores and len(sstores[norm(n)]) == 1 and isinstance(n.ctx, ast.Load):
+                        return full(_copy.deepcopy(sstores[norm(n)][0]), depth + 1)
+                    return self.generic_visit(n)
+            e = _A().visit(_copy.deepcopy(e))
+        return e
+
+    want = norm(full(ast.parse("self.schema", mode="eval").body))
+    rcfg = CFG(ri)
+    use = next((c for c in calls_in(ri) if getattr(prog.resolve_expr(av, c.func), "qualname", "").endswith("schema_to_descriptor")), None)
+    refusals = [st for st in walk_no_nested(ri) if isinstance(st, ast.If) and isinstance(st.test, ast.UnaryOp) and isinstance(st.test.op, ast.Not) and isinstance(st.body[-1], ast.Raise)
+                and norm(full(st.test.operand)) == want]
+    ctx.check(bool(refusals) and use is not None and rcfg.dominates(rcfg.node_of(refusals[0]).id, rcfg.node_of(use).id), "R19.1", "AvroReader.__init__:schema",
               "a container without a schema is not refused", ri, "raise when the schema is missing")
 
     # ------------------------------------------------------------------ R19.2
